@@ -89,10 +89,17 @@ CLAIMED["C02"] = {
             "reconnect, comparing the reloaded projection with restore(model), plus predicates (reload consistent, "
             "release rule: every released secret's height < durable local height, no gaps/repeats). Two genuine "
             "defects found by this check were repaired in /repo (fixed: C02-F1, C02-F2).",
-    "note": _CHAN_NOTE + " channeldb serialisation is exercised by the reloads, not modelled byte-for-byte; bbolt only "
-            "(sqlite-kvdb not run).",
+    "note": _CHAN_NOTE + " channeldb serialisation is exercised by the reloads, not modelled byte-for-byte. Crashes are "
+            "taken at kvdb-transaction granularity (backend atomicity trusted; bbolt and lnd's sqlite-kvdb are run, "
+            "postgres/etcd are not available offline); every writing call commits exactly one transaction today "
+            "(measured every run); side tables (revocation log, forwarding packages, LastWasRevoke, unsigned-update "
+            "lists) are checked exactly at every reload. The 'did not happen' state of a crashed resync is tied by "
+            "correspondence only.",
     "technique": "Coq proof (restore refinement lemmas, monotone tail) + reload-at-every-step differential "
-                 "correspondence + implementation-side predicates",
+                 "correspondence + implementation-side predicates; every writing call (sign / revoke / "
+                 "receive-revocation / resync-sign) is additionally crashed after each prefix of its kvdb transactions, "
+                 "with refuse and real-backend rollback modes, on bbolt and sqlite-kvdb; Exec.TCrashIn accepts only "
+                 "'did not happen' or 'completed'",
 }
 CLAIMED["C03"] = {
     "design_ref": "DESIGN.md §4 C03, notes/C01-proofs.md",
@@ -431,19 +438,35 @@ CLAIMED["C13"] = {
             "channel resolved, with the repaired F1 window proved recovered. Exception F2 (dust fail-back lost after a "
             "stop between InsertConfirmedCommitSet and MarkChannelClosed with a dangling HTLC; known finding, shares its "
             "root cause with C12-F1) is the exact hypothesis of (1) and refuted by a witness. Tie: the real "
-            "ChannelArbitrator on the real bolt arbitrator log behind a stop-the-world kvdb wrapper, 14 close scenarios "
+            "ChannelArbitrator on the real bolt arbitrator log behind a stop-the-world kvdb wrapper, 22 close scenarios "
             "(two with different HTLCs at the same output index on different commitments of the persisted commit set), "
             "a stop after EVERY committed transaction plus repeated stops; every database snapshot sequence must be a "
             "model path, final database and output sets equal, and the implementation is compared with its own "
-            "uninterrupted run. Finding C13-F1 was found by this check and repaired in /repo (2099ea4).",
+            "uninterrupted run. Received HTLCs: the incoming-contest/success resolver pair is modelled as a machine whose branch (claim "
+            "with the preimage, or abandon at expiry) is decided by environment events (beacon learns the preimage / "
+            "expiry height reached) at any point of the history. Proved for ALL histories: never both a settled and a "
+            "failed final outcome nor both Claimed and Timeout reports; settled only if the preimage was known, failed "
+            "only if the expiry was reached; the machine is at all times a state of one staged script of the "
+            "whole-channel model; progress; a preimage that reached the beacon before expiry is never lost by a "
+            "restart. Scenarios include received HTLCs with the preimage known at close, learned later, learned then "
+            "stopped before any subscriber saw it, and never learned, on remote and own two-stage commitments, mixed "
+            "with offered HTLCs and dust, plus three scenarios with no HTLC near expiry at the closing height. Findings "
+            "C13-F1 (2099ea4) and C13-F3 (276b5b1, restart in StateContractClosed used chainTrigger and dropped all "
+            "HTLC actions) were found by this check and repaired in /repo.",
     "note": "Which chain actions/resolvers a close yields is an input (C12); resolvers are staged scripts validated "
-            "against persisted resolver bytes. Not modelled: success/incoming-contest resolvers, legacy nursery paths, "
-            "sweeper persistence, reorgs, DB write errors other than the stop. Progress = existence of a terminating "
+            "against persisted resolver bytes. Not modelled: exit-hop (invoice registry) received HTLCs, "
+            "checkpointForeignSpend, legacy nursery paths, taproot, sweeper persistence, reorgs, DB write errors other "
+            "than the stop. The whole-channel model runs a received-HTLC resolver as the staged script of the branch the "
+            "scenario's environment selects; that the real resolver is always a state of one of the two scripts is "
+            "proved on the single-resolver machine (C13_incoming_refines_script). The environment advances only at "
+            "quiescence (blocks slow compared to a restart). Progress = existence of a terminating "
             "crash-free schedule from every reachable state, not fairness. bbolt transaction atomicity assumed. Trusted: "
             "Coq kernel, harness mocks, python predicate.",
     "technique": "Coq proof (two inductive invariants over all interleavings and crash points + lexicographic "
                  "termination measure) + stop-the-world differential correspondence on the real arbitrator/bolt log + "
-                 "implementation-vs-uninterrupted-run predicate",
+                 "implementation-vs-uninterrupted-run predicate + environment-driven branching machine for received "
+                 "HTLCs with a refinement-to-staged-script theorem; preimage-validating mock sweeper/chain; durable "
+                 "beacon store",
 }
 
 _PUNISH_NOTE = ("partial by nature (crypto, script engine): key tweaks, sighash, taproot commitments and the full "
